@@ -1,2 +1,17 @@
 import TephraProps.C19
-#print axioms Tephra.Props.C19_end_measurement
+#print axioms Tephra.Props.C19_next
+#print axioms Tephra.Props.C19_previous
+#print axioms Tephra.Props.C19_line_start
+#print axioms Tephra.Props.C19_line_end
+#print axioms Tephra.Props.C19_previous_line_end
+#print axioms Tephra.Props.C19_next_line_start
+#print axioms Tephra.Props.C19_start
+#print axioms Tephra.Props.C19_end
+#print axioms Tephra.Props.C19_after_str
+#print axioms Tephra.Props.C19_after_chars
+#print axioms Tephra.Props.C19_next_after_chars
+#print axioms Tephra.Props.C19_is_line_break
+#print axioms Tephra.Props.C19_navigation
+#print axioms Tephra.Props.C19_total
+#print axioms Tephra.Props.C19_next_then_previous
+#print axioms Tephra.Props.C19_previous_then_next
